@@ -41,6 +41,15 @@ CLAIMED = {
  "C11": ("exploration", "round-trip property-based testing (write -> read -> compare -> write -> compare bytes)",
          "Generated lists of valid transactions (all actions, 28-digit decimals, every affiliate spelling, split-ratio forms, declared SfL with force flag, hostile memos) are written with write_txs_to_csv, re-read with parse_tx_csv + Tx::try_from, compared field by field, and written again; the bytes must repeat.",
          "Transactions are built through the library's own public types; split-ratio terms below 1e9.", "DESIGN.md section 4 C11"),
+ "C12": ("exploration", "property-based testing against a 15-line reference function over generated publication calendars served by a fake Bank of Canada endpoint",
+         "Calendars with holidays, exact gaps of 5-12 days, gaps across New Year, empty years and malformed observations are served as valet JSON; look-ups at gap edges, year edges and around today, and rows with every currency/rate combination, must get exactly the documented rate or an error.",
+         "The fake endpoint follows the documented JSON schema; network-level failures are not explored.", "DESIGN.md section 4 C12"),
+ "C13": ("exploration", "model-based (stateful) property-based testing: histories of runs and look-ups against a cache-free reference loader",
+         "Sequences of runs (own today, force flag, monotone remote data) and look-ups in any order share an in-memory cache and a real CSV cache directory; every answer must equal the answer of a fresh cache-free loader; downloads per (run, year) are counted.",
+         "The remote always contains everything published before the run's today (premise of the property).", "DESIGN.md section 4 C13"),
+ "C14": ("fault_enumeration", "exhaustive crash-point enumeration through feature-gated hooks (every byte offset and step boundary of the cache write) over generated year contents",
+         "For each generated year content and prior cache state the write is interrupted at every byte offset and every step (create, flush, sync, rename); a later run must never compute with a rate differing from the published one.",
+         "Operations persist in program order; filesystems reordering un-synced writes are outside the model. Contents are sampled, crash points per content are exhaustive.", "DESIGN.md section 4 C14"),
 }
 NOT_YET = "check not built yet in this round (planned: see DESIGN.md section 4)"
 
